@@ -430,6 +430,46 @@ theorem rangeFold_mono (g g' : Nat → Option Addr) (s : String)
         simp only [hg, hgg i x hg] at h ⊢
         exact ih _ _ h
 
+/-- a range loop that did not fail found EVERY member (not only the last one it returns) -/
+theorem rangeFold_all (g : Nat → Option Addr) (s : String) :
+    ∀ (l : List Nat) (acc : Except Err (Option Addr)) (o : Option Addr),
+      rangeFold g s l acc = .ok o → ∀ i ∈ l, ∃ x, g i = some x := by
+  intro l
+  induction l with
+  | nil => intro acc o _ i hi; cases hi
+  | cons j l ih =>
+    intro acc o h i hi
+    cases acc with
+    | error e =>
+      have := rangeFold_error g s e (j :: l)
+      rw [this] at h; cases h
+    | ok v =>
+      have step : rangeFold g s (j :: l) (.ok v) =
+          rangeFold g s l (match g j with | some x => .ok (some x) | none => .error (.notFound s)) := rfl
+      rw [step] at h
+      cases hg : g j with
+      | none =>
+        simp only [hg] at h
+        rw [rangeFold_error] at h; cases h
+      | some x =>
+        simp only [hg] at h
+        rcases List.mem_cons.mp hi with rfl | hi'
+        · exact ⟨x, hg⟩
+        · exact ih _ _ h i hi'
+
+/-- `stem{a:b}` resolves only if EVERY id `stem+a … stem+(b-1)` is registered -/
+theorem resolveRange_all (s : String) (reg : List (String × Addr)) (x : Addr) (stem : String) (a b : Int)
+    (hp : parseRangeRef s = some (stem, a, b)) (h : resolveRange s reg = .ok x) :
+    ∀ i : Nat, i < (b - a).toNat → ∃ y, regLookup (stem ++ toString (a + (i : Int))) reg = some y := by
+  unfold resolveRange at h
+  simp only [hp] at h
+  cases hf : rangeFold (fun i => regLookup (stem ++ toString (a + (i : Int))) reg) s
+      (List.range (b - a).toNat) (.ok none) with
+  | error e => rw [hf] at h; cases h
+  | ok o =>
+    intro i hi
+    exact rangeFold_all _ s _ _ o hf i (List.mem_range.mpr hi)
+
 theorem resolveRange_mono (s : String) (reg reg' : List (String × Addr)) (a : Addr)
     (hm : ∀ k x, regLookup k reg = some x → regLookup k reg' = some x)
     (h : resolveRange s reg = .ok a) : resolveRange s reg' = .ok a := by
